@@ -1180,6 +1180,22 @@ pub fn run_case(case: &Case, stats: &mut Stats) -> RunReport {
             if asked {
                 stats.bump("rule.P9.evaluated");
                 stats.bump(&format!("probe.class_under_completion_request.{}", e.class));
+                let rev_first = rest.first().map_or(false, |t| {
+                    t.strip_prefix(b"--bpaf-complete-rev=")
+                        .and_then(|n| std::str::from_utf8(n).ok())
+                        .and_then(|n| n.parse::<usize>().ok())
+                        .map_or(false, |n| matches!(n, 0 | 1 | 7 | 8 | 9))
+                });
+                if rev_first {
+                    let mut usage_somewhere = false;
+                    opts.walk_opts(&mut |o| usage_somewhere |= o.fallback_to_usage);
+                    stats.bump("rule.P9first.evaluated");
+                    stats.bump(&format!(
+                        "probe.class_when_request_comes_first.{}{}",
+                        e.class,
+                        if usage_somewhere { "+usage-level" } else { "" }
+                    ));
+                }
                 if e.class == "stderr" {
                     let text = String::from_utf8_lossy(&e.stderr).to_string();
                     let kind = if text.contains("as both an option and an option-argument") {
@@ -1191,6 +1207,32 @@ pub fn run_case(case: &Case, stats: &mut Stats) -> RunReport {
                 }
                 if rest.iter().any(|t| std::str::from_utf8(t).is_err()) {
                     stats.bump("probe.completion_request_with_non_utf8_word");
+                }
+                // the way the shell stubs ask - the switch in front of everything - the answer
+                // is a completion reply (or, when some level has `fallback_to_usage` and sees
+                // nothing, its usage): an ambiguous bundle is no error while a line is being
+                // completed, and a parse failure is what completion is there to prevent
+                let mut usage_somewhere = false;
+                opts.walk_opts(&mut |o| usage_somewhere |= o.fallback_to_usage);
+                let style_too = rest.iter().any(|t| t.starts_with(b"--bpaf-complete-style-"));
+                if rev_first
+                    && !style_too
+                    && e.class != "completion"
+                    && !(e.class == "stdout" && usage_somewhere)
+                    && e.class != "value"
+                {
+                    violation!(
+                        "P9",
+                        ix,
+                        format!("rule=P9 request-answered-with class={}", e.class),
+                        format!(
+                            "the command line {:?} starts with a completion request, yet the answer is of class {}\nstdout would be: {:?}\nstderr would be: {:?}",
+                            rest.iter().map(|t| String::from_utf8_lossy(t).to_string()).collect::<Vec<_>>(),
+                            e.class,
+                            show(&e.stdout),
+                            show(&e.stderr)
+                        )
+                    );
                 }
                 if e.class == "value" {
                     violation!(
